@@ -144,7 +144,7 @@ class C06(Prop):
         "written_file", "open_written", "open_rejects", "findName_stored", "findName_alias", "findName_absent", "findNumber_sorted",
         "fileInfo_spec", "internal_eq_external", "auto_switch_trigger", "external_is_permanent", "history_write", "history_index_correct", "history_alias", "history_enumeration", "findSubseq_spec", "findSubseq_erange", "exCross_wf",
         "findSubseq_alias", "findSubseq_absent", "open_any_bytes", "bsearch_any_array", "findName_any_index", "findName_no_fault",
-        "findNumber_any_index", "fileInfo_any_index", "findSubseq_any_index",
+        "findNumber_any_index", "fileInfo_any_index", "findSubseq_any_index", "written_index_no_fault_conditions", "addFile_never_checks_names",
         "cross_class_duplicate_rejected")]
     claimed = True
     technique = ("Lean 4 proof about an executable model of esl_ssi.c (writer, on-disk layout, binary search, alias indirection) "
@@ -469,6 +469,221 @@ class C06(Prop):
             ops.append("close")
         return {"name": name, "ops": ops, "sticky": 1}
 
+    @staticmethod
+    def _corrupt_safe(b):
+        """Can the lookups be called on this image without the C code leaving a buffer (the model's `fault`/`nohalt`
+        outcomes: strcmp on a key field without terminator, alias -> alias recursion; for FindSubseq also a stored file
+        handle >= nfiles and fast-subseq geometry with rpl = 0)?  Returns None (do not use the image), or
+        (find_ok, subseq_ok). Mirrors esl_ssi_Open's header parse; `Ssi.Terminated` / `Ssi.NoAliasChain` of Robust.lean."""
+        import struct
+        if len(b) < 78:
+            return (True, True)                   # Open fails: the lookups answer bad-op on both sides
+        magic, flags, offsz = struct.unpack(">III", bytes(b[:12]))
+        if magic != 0xd3d3c9b3 or offsz != 8:
+            return None
+        nfiles, np_, ns_, flen, plen, slen, frec, prec, srec, foff, poff, soff = struct.unpack(">HQQIIIIIIQQQ", bytes(b[12:78]))
+        if nfiles == 0:
+            return (True, True)
+        if np_ > 3000 or ns_ > 3000 or nfiles > 64 or max(foff, poff, soff) >= 2**40 or flen == 0:
+            return None
+        fl = []
+        for i in range(nfiles):
+            o = foff + (i * frec) % 2**32
+            if o + flen + 16 > len(b):
+                return (True, True)               # short read in Open
+            fl.append(struct.unpack(">IIII", bytes(b[o + flen:o + flen + 16])))
+        def term(o, n):
+            return n == 0 or o + n > len(b) or 0 in b[o:o + n]
+        def cs(o, n):
+            x = bytes(b[o:o + n]); return x.split(b"\0")[0]
+        find_ok = all(term(poff + prec * j, plen) for j in range(np_)) and \
+                  all(term(soff + srec * j, slen) and term(soff + srec * j + slen, plen) for j in range(ns_))
+        if find_ok and plen and slen:
+            skeys = {cs(soff + srec * j, slen) for j in range(ns_) if soff + srec * j + slen <= len(b)}
+            targets = {cs(soff + srec * j + slen, plen) for j in range(ns_) if soff + srec * j + slen + plen <= len(b)}
+            if skeys & targets:
+                find_ok = False                   # an alias naming an alias: possible unbounded recursion
+        sub_ok = find_ok and not any((f[1] & 1) and f[3] == 0 for f in fl)
+        if sub_ok:
+            for j in range(np_):
+                o = poff + prec * j + plen
+                if o + 2 <= len(b) and struct.unpack(">H", bytes(b[o:o + 2]))[0] >= nfiles:
+                    sub_ok = False
+        return (find_ok, sub_ok)
+
+    def gen_corrupt(self, rng, name):
+        """Open + Find* on TRUNCATED / CORRUPTED / UNSORTED indices (theorems `findName_any_index`, `findName_no_fault`,
+        `findNumber_any_index`, `fileInfo_any_index`, `open_any_bytes`): a small valid image is damaged in its key sections,
+        counts, widths or offsets, or cut anywhere; images on which the C code would leave a buffer are filtered out
+        (`_corrupt_safe`); every lookup is compared exactly with the model"""
+        import struct
+        kg = KeyGen(rng, 16)
+        nfiles = rng.randint(1, 3)
+        files = [(kg.rand(1, 9, LETTERS + b"/."), rng.randrange(0, 100)) for _ in range(nfiles)]
+        pk = {k: (rng.randrange(nfiles), off(rng), off(rng), off(rng)) for k in kg.many(rng.randint(1, 14))}
+        al = {a: rng.choice(sorted(pk)) for a in kg.many(rng.randint(0, 7))}
+        img = bytearray(ssi_image(files, {0: (61, 60)} if rng.random() < 0.5 else {}, pk, al))
+        nf, np_, ns_, flen, plen, slen, frec, prec, srec, foff, poff, soff = struct.unpack(">HQQIIIIIIQQQ", bytes(img[12:78]))
+        absent = [k + b"!" for k in list(pk)[:2]] + [k[:-1] for k in list(pk)[:2] if len(k) > 1] + [b"zz-absent", b"!", b"~~~"]
+        probes = sorted(pk) + sorted(al) + absent
+        def put(b, fmt, at, v):
+            b[at:at + struct.calcsize(fmt)] = struct.pack(fmt, v)
+        def prec_(b, j): return bytes(b[poff + prec * j:poff + prec * (j + 1)])
+        def srec_(b, j): return bytes(b[soff + srec * j:soff + srec * (j + 1)])
+        ops = ["new"]
+        made = 0
+        for _ in range(30):
+            if made >= 7:
+                break
+            b = bytearray(img)
+            kind = rng.choice(["trunc", "trunc", "swapP", "revP", "dupP", "rotP", "swapS", "revS", "dupS", "countP", "countS", "poff", "soff",
+                               "keybyte", "target", "widths", "fh", "geom", "zerofill", "garbage-tail"])
+            if kind == "trunc":
+                cut = rng.choice([poff, poff + 1, poff + plen - 1, poff + plen, poff + plen + 1, poff + plen + 2, poff + plen + 10, poff + prec - 1, poff + prec,
+                                  soff - 1, soff, soff + 1, soff + slen - 1, soff + slen, soff + slen + plen - 1, len(b) - 1, len(b) - plen,
+                                  rng.randrange(foff + nf * frec, len(b) + 1), rng.randrange(0, len(b) + 1)])
+                b = b[:max(0, min(cut, len(b)))]
+            elif kind in ("swapP", "dupP") and np_ >= 2:
+                i, j = rng.sample(range(np_), 2)
+                ri, rj = prec_(b, i), prec_(b, j)
+                b[poff + prec * j:poff + prec * (j + 1)] = ri
+                if kind == "swapP": b[poff + prec * i:poff + prec * (i + 1)] = rj
+            elif kind == "revP" and np_ >= 2:
+                recs = [prec_(b, j) for j in range(np_)][::-1]
+                b[poff:poff + prec * np_] = b"".join(recs)
+            elif kind == "rotP" and np_ >= 2:
+                recs = [prec_(b, j) for j in range(np_)]; r = rng.randrange(1, np_)
+                b[poff:poff + prec * np_] = b"".join(recs[r:] + recs[:r])
+            elif kind in ("swapS", "dupS") and ns_ >= 2:
+                i, j = rng.sample(range(ns_), 2)
+                ri, rj = srec_(b, i), srec_(b, j)
+                b[soff + srec * j:soff + srec * (j + 1)] = ri
+                if kind == "swapS": b[soff + srec * i:soff + srec * (i + 1)] = rj
+            elif kind == "revS" and ns_ >= 2:
+                recs = [srec_(b, j) for j in range(ns_)][::-1]
+                b[soff:soff + srec * ns_] = b"".join(recs)
+            elif kind == "countP":
+                put(b, ">Q", 14, rng.choice([0, max(0, np_ - 1), np_ + 1, np_ + 2, np_ + ns_, np_ + 50, 1]))
+            elif kind == "countS":
+                put(b, ">Q", 22, rng.choice([0, max(0, ns_ - 1), ns_ + 1, ns_ + 3, ns_ + 40, 1]))
+            elif kind == "poff":
+                put(b, ">Q", 62, max(0, poff + rng.choice([-prec, -1, 1, plen, prec, 2 * prec, len(b), 7])))
+            elif kind == "soff":
+                put(b, ">Q", 70, max(0, soff + rng.choice([-srec if srec else -1, -1, 1, slen, srec, len(b), -prec])))
+            elif kind == "keybyte" and np_:
+                j = rng.randrange(np_); k = sorted(pk)[j]
+                at = poff + prec * j + rng.randrange(len(k))
+                b[at] = rng.choice(ALLPRINT)
+            elif kind == "target" and ns_:
+                j = rng.randrange(ns_)
+                t = rng.choice([b"no-such-key", sorted(pk)[0][:-1] or b"q", sorted(al)[0], sorted(pk)[-1], b""])[:max(0, plen - 1)]
+                b[soff + srec * j + slen:soff + srec * j + slen + plen] = t.ljust(plen, b"\0")
+            elif kind == "widths":
+                at, v = rng.choice([(34, plen), (38, slen), (46, prec), (50, srec), (30, flen), (42, frec)])
+                put(b, ">I", at, max(0, v + rng.choice([-1, 1, 2, -2])))
+            elif kind == "fh" and np_:
+                j = rng.randrange(np_)
+                put(b, ">H", poff + prec * j + plen, rng.choice([nf, nf + 1, 65535, 0]))
+            elif kind == "geom":
+                put(b, ">I", foff + flen + 4, rng.choice([0, 1, 3]))        # flags of file 0
+                put(b, ">I", foff + flen + 12, rng.choice([0, 1, 60]))      # rpl of file 0
+            elif kind == "zerofill" and np_:
+                j = rng.randrange(np_)
+                b[poff + prec * j:poff + prec * j + plen] = b"\0" * plen     # an empty key in the middle of the section
+            elif kind == "garbage-tail":
+                b += bytes(rng.choice(ALLPRINT + b"\0") for _ in range(rng.randint(1, 40)))
+            else:
+                continue
+            safe = self._corrupt_safe(b)
+            if safe is None or not safe[0]:
+                continue
+            made += 1
+            ops.append("openraw hex=%s" % hx(bytes(b)))
+            look = ["find k=%s" % hx(p) for p in probes] + ["findq k=%s" % hx(p) for p in probes[:3]]
+            look += ["findnum i=%d" % i for i in list(range(-1, np_ + 3)) + [np_ + ns_, np_ + 50, 2**63 - 1, -2**63]]
+            look += ["fileinfo fh=%d" % fh for fh in range(nf + 2)]
+            if safe[1]:
+                for k in (sorted(pk)[:3] + sorted(al)[:2]):
+                    for st in (0, 1, 2, 61, 120, pk[k][3] if k in pk else 5, 2**63 - 1):
+                        if st <= 2**63 - 1:
+                            look.append("subseq k=%s start=%d" % (hx(k), st))
+            if rng.random() < 0.5:
+                rng.shuffle(look)
+            ops += look + ["close"]
+        return {"name": name, "ops": ops, "sticky": 1}
+
+    def gen_shapes(self, rng, name, k):
+        """boundary shapes the property's quantifier names, one family per k:
+        0 file names that grow by one character from one AddFile to the next (reads_9.fa, reads_10.fa; with and without directories);
+        1 the same file registered twice / same tail under different directories (AddFile does not check: two handles, two records);
+        2 external sort whose tmp-file lines are >= 255 bytes while most are short (first long line of the sorted file already >= 255);
+        3 exactly 15/16/17/31/32/33 files (reallocation chunk eslSSI_FCHUNK = 16) with keys in the last ones;
+        4 keys and aliases whose lengths are plen-2..plen (one longest key), probes of length plen-1, plen, plen+1"""
+        kg = KeyGen(rng)
+        files, keys, aliases, subseq = [], [], [], []
+        fam = k % 5
+        if fam == 0:
+            stem = kg.rand(1, 6, LETTERS) + rng.choice([b"_", b".", b""])
+            d = rng.choice([b"", b"", b"data/", b"/a/b/"])
+            start = rng.choice([8, 9, 98, 99, 998])
+            files = [(d + stem + str(start + i).encode() + b".fa", i) for i in range(rng.randint(2, 6))]
+            if rng.random() < 0.5:
+                files.reverse()                                  # ... or shrinking by one
+        elif fam == 1:
+            nm = kg.rand(1, 10, LETTERS) + b".fa"
+            files = [(nm, 1), (nm, 2), (b"x/" + nm, 3), (b"y/z/" + nm, 4), (nm + b"/", 5), (nm, 1)][:rng.randint(2, 6)]
+        elif fam == 2:
+            files = [(b"f.fa", 1), (b"g.fa", 2)]
+        elif fam == 3:
+            files = [(kg.rand(1, 12, LETTERS + b"/."), i) for i in range(rng.choice([15, 16, 17, 31, 32, 33, 47, 48, 49]))]
+        else:
+            files = [(b"f", 0)]
+        nfiles = len(files)
+        if fam == 2:
+            c = kg.rand(1, 1, LETTERS)
+            pre = rng.choice([b"!", b"~", c])                    # the long keys sort first / last / in the middle
+            longk = [pre + bytes([rng.choice(LETTERS)]) * rng.choice([196, 197, 198]) + kg.rand(1, 1) for _ in range(rng.randint(1, 3))]
+            shortk = kg.many(rng.randint(0, 8))
+            kl = [x for x in dict.fromkeys(longk + [s_ for s_ in shortk if len(s_) < 30])]
+            keys = [(x, rng.randrange(nfiles), 2**63 - 1 - rng.randrange(3), 2**62 + rng.randrange(9), 2**63 - 1) if len(x) > 100 else
+                    (x, rng.randrange(nfiles), off(rng), off(rng), off(rng)) for x in kl]
+            rng.shuffle(keys)
+            la = [b"A" + x[1:] for x in longk if b"A" + x[1:] not in kl][:2]
+            aliases = [(a, rng.choice(longk)) for a in la] + [(a, rng.choice(kl)) for a in kg.many(rng.randint(0, 3)) if a not in kl and len(a) < 30]
+        elif fam == 4:
+            P = rng.choice([2, 3, 17, 128, 129, 200])
+            c = kg.rand(1, 1, LETTERS)
+            cand = [c * (P - 1), c * (P - 2), c * (P - 3), c * (P - 2) + b"!", (c * (P - 1))[:-1] + b"~"]
+            kl = [x for x in dict.fromkeys(cand) if x]
+            keys = [(x, 0, off(rng), off(rng), off(rng)) for x in kl]
+            rng.shuffle(keys)
+            S = rng.choice([2, 3, 64, 127, 128, 201])
+            e = kg.rand(1, 1, DIGITS)
+            acand = [e * (S - 1), e * (S - 2), e * (S - 1) + b"x"][:rng.randint(0, 3)]
+            aliases = [(a, rng.choice(kl)) for a in dict.fromkeys(acand) if a and a not in kl]
+        else:
+            kl = kg.many(rng.randint(1, 10))
+            keys = [(x, (nfiles - 1 - i) % nfiles if i < 3 else rng.randrange(nfiles), off(rng), off(rng), off(rng)) for i, x in enumerate(kl)]
+            aliases = [(a, rng.choice(kl)) for a in kg.many(rng.randint(0, 3))]
+            subseq = [(fh, 61, 60) for fh in {nfiles - 1, 0, nfiles // 2}]
+        merged = self._merge(rng, keys, aliases)
+        n_adds = len(merged)
+        ops = self._build_ops(files, merged, None, subseq)
+        ops += self._build_ops(files, merged, rng.choice([0, n_adds, rng.randint(0, n_adds)]), subseq)
+        ops.append("open")
+        stored = [x[0] for x in keys] + [a[0] for a in aliases]
+        look = []
+        for x in stored:
+            look += ["find k=%s" % hx(p_) for p_ in (x, x + b"0", x + x[-1:], x[:-1], x + b"!")]
+        look += ["findnum i=%d" % i for i in range(-1, len(keys) + 2)]
+        look += ["fileinfo fh=%d" % fh for fh in list(range(nfiles)) + [nfiles, nfiles + 1, 65535]]
+        for x in keys[:3]:
+            look += ["subseq k=%s start=%d" % (hx(x[0]), st) for st in (1, 61, max(1, x[4])) if st <= 2**63 - 1]
+        for a in aliases[:2]:
+            look += ["subseq k=%s start=%d" % (hx(a[0]), st) for st in (0, 1, 60, 61, 62, 2**63 - 1)]
+        ops += look + ["close"]
+        return {"name": name, "ops": ops, "sticky": 1}
+
     def corpus(self, ctx):
         c = []
         # one-key index; probes below / above; prefixes
@@ -577,12 +792,17 @@ class C06(Prop):
             st["nkeys"].append(nkeys); st["nalias"].append(nalias); st["nfiles"].append(nfiles); st["ops"] += len(case["ops"])
         for c in range(40 if quick else 400):
             out.append(self.gen_malformed(rng, "malformed%d" % c))
+        for c in range(40 if quick else 400):
+            out.append(self.gen_corrupt(rng, "corrupt%d" % c))
+        for c in range(20 if quick else 200):
+            out.append(self.gen_shapes(rng, "shape%d-%d" % (c % 5, c), c))
         for c in range(5 if quick else 50):
             out.append(self.gen_auto(rng, "autoswitch%d" % c))
         for c in range(6 if quick else 45):
             out.append(self.gen_exact(rng, "autoswitch-exact%d" % c))
         self.stats["autoswitch"] = sum(1 for c in out if c["name"].startswith("autoswitch"))
         self.stats["malformed"] = sum(1 for c in out if c["name"].startswith("malformed"))
+        self.stats["corrupt"] = sum(sum(1 for o in c["ops"] if o.startswith("openraw")) for c in out if c["name"].startswith("corrupt"))
         return out
 
     # ------------------------------------------------------------------ oracle on the implementation's output
@@ -797,7 +1017,7 @@ class C06(Prop):
             return {"min": v[0], "median": v[len(v) // 2], "p95": v[int(len(v) * 0.95)], "max": v[-1]} if v else {}
         return {"input_distribution": {"build_modes": st["modes"], "primary_keys_per_index": q(st["nkeys"]), "aliases_per_index": q(st["nalias"]),
                                        "files_per_index": q(st["nfiles"]), "total_ops": st["ops"],
-                                       "malformed_index_cases": st.get("malformed", 0), "automatic_switch_cases": st.get("autoswitch", 0),
+                                       "malformed_index_cases": st.get("malformed", 0), "corrupt_or_truncated_images_with_lookups": st.get("corrupt", 0), "automatic_switch_cases": st.get("autoswitch", 0),
                                        "key_families": "independent / shared prefix / prefix chain / last-byte variants / punctuation around TAB-space / lengths 198-200",
                                        "offsets": "boundary values 0,1,2^31-1,2^31,2^32-1,2^32,2^53,2^62,2^63-1 + uniform 63-bit + small"}}
 
